@@ -324,6 +324,7 @@ class ScriptSession:
         self.view = "init"
         self.failed = None
         self.cur = 0
+        self.probe_seqs = set()
 
     def _find(self, names, start):
         for k in range(start, len(self.dap.log)):
@@ -422,12 +423,17 @@ class ScriptSession:
                 self.after_stop_or_end(self._ev(("stopped", "terminated"), mark), gap)
             elif self.view == "stopped" and a == "inspect":
                 self.snapshots(gap)
+            elif self.view == "running" and a == "probe":
+                # Registers of the running machine: an instant of the run at which everything installed so far is in force
+                self.probe_seqs.add(d.seq + 1)
+                d.request("variables", {"variablesReference": 1}, self.timeout)
         d.request("disconnect", {}, self.timeout)
         d.close()
 
 
-def observations(log):
-    """Reshape a Dap.log into the observation rows DebuggerTrace.tla reads (stream order, no judging)."""
+def observations(log, probe_seqs=()):
+    """Reshape a Dap.log into the observation rows DebuggerTrace.tla reads (stream order, no judging).
+    probe_seqs: request numbers of `variables` requests sent while the machine was believed to run."""
     out, reqs, frame, regs = [], {}, None, None
 
     def num(s):
@@ -457,6 +463,11 @@ def observations(log):
             elif c == "variables":
                 vs = {v["name"]: num(v["value"]) for v in ((m.get("body") or {}).get("variables") or [])} if m.get("success") else {}
                 regs = {"a": vs.get("A", -1), "x": vs.get("X", -1), "y": vs.get("Y", -1), "cyc": vs.get("CYC", -1)}
+                if m.get("request_seq") in probe_seqs:
+                    o = {"k": "probe"}
+                    o.update(regs)
+                    out.append(o)
+                    regs = None
             elif c == "evaluate":
                 ev = num((m.get("body") or {}).get("result", "")) if m.get("success") else -1
                 if frame is not None and regs is not None:
